@@ -59,7 +59,22 @@ class Gen:
         roots = []
         for index in range(rng.randint(1, self.max_roots)):
             roots.append({'name': 'r%d' % index, 'steps': self.steps(0)})
+        self.resolve_later(roots)
         return {'objects': self.objects, 'roots': roots, 'start': start, 'till': None}
+
+    def resolve_later(self, node):
+        """clean-up code may refer to tasks that are only spawned later in the program"""
+        if isinstance(node, dict):
+            if node.get('cancel') == '<later>':
+                if self.tasks:
+                    node['cancel'] = self.rng.choice(self.tasks)
+                else:
+                    del node['cancel']
+            for value in node.values():
+                self.resolve_later(value)
+        elif isinstance(node, list):
+            for value in node:
+                self.resolve_later(value)
 
     def steps(self, depth, n=None):
         rng = self.rng
@@ -270,8 +285,13 @@ class Gen:
                 'cleanup': cleanup}
 
     def g_guard(self, depth):
-        return {'op': 'guard', 'body': self.steps(depth + 1, self.rng.randint(1, 3)),
+        step = {'op': 'guard', 'body': self.steps(depth + 1, self.rng.randint(1, 3)),
                 'child': self.child(depth)}
+        if self.rng.random() < 0.35:
+            # the clean-up also withdraws some other task of the program (which may not even
+            # have started when that happens)
+            step['cancel'] = '<later>'
+        return step
 
     def g_watch(self, depth):
         """hand something that is not a coroutine to scope.do(): a running Task of another
